@@ -313,6 +313,7 @@ type play struct {
 	AliasBefore string // text of <output-dir>/latest when the run proper starts
 	Repeat                            bool
 	DirKind                           int // 0 ".", 1 relative, 2 nested relative, 3 absolute
+	OwnPlots                          bool // the actor itself creates <run dir>/plots (to publish a picture there)
 	MaxT                              string
 	PastSecs                          int
 	// the run
@@ -346,7 +347,11 @@ type play struct {
 
 func (p *play) config() string {
 	var sb strings.Builder
-	sb.WriteString("role person\n  :run echo hello\n  :mk echo data >file.txt; cp file.txt copy.txt; cp -b file.txt copy.txt; echo b >'notes~'; echo e >'#edit#'; echo h >'#half~'; mkdir -p 'old~'; echo k >'old~/kept.txt'; test -e pipe1 || mkfifo pipe1; mkdir -p data.v1; ln -sfn data.v1 current; ln -sfn file.txt cur.txt; ln -sfn nowhere dangling; ln -sfn pipe1 plink; ln -sfn /etc outside; ln -sfn selfloop selfloop; echo n >\"$HOME/notes.txt\"; mkdir -p ../shared; echo s >../shared/s.txt; for n in $(seq 250); do test -e spot.done && break; sleep 0.02; done; sleep 0.2\n")
+	ownPlots := ""
+	if p.OwnPlots {
+		ownPlots = "; mkdir -p ../../plots; echo pic >../../plots/picture.txt"
+	}
+	sb.WriteString("role person\n  :run echo hello\n  :mk echo data >file.txt; cp file.txt copy.txt; cp -b file.txt copy.txt; echo b >'notes~'; echo e >'#edit#'; echo h >'#half~'; mkdir -p 'old~'; echo k >'old~/kept.txt'; test -e pipe1 || mkfifo pipe1; mkdir -p data.v1; ln -sfn data.v1 current; ln -sfn file.txt cur.txt; ln -sfn nowhere dangling; ln -sfn pipe1 plink; ln -sfn /etc outside; ln -sfn selfloop selfloop" + ownPlots + "; echo n >\"$HOME/notes.txt\"; mkdir -p ../shared; echo s >../shared/s.txt; for n in $(seq 250); do test -e spot.done && break; sleep 0.02; done; sleep 0.2\n")
 	if p.Fouled && (p.FoulKind == "action" || p.FoulKind == "early") {
 		sb.WriteString("  :bad echo failing >&2; false\n")
 	}
@@ -638,8 +643,13 @@ exit 0
 }
 
 func (p *play) inspect(runDir string) {
-	if st, err := os.Stat(filepath.Join(runDir, "plots")); err == nil && st.IsDir() {
+	// "the tool made its plots": plot scripts are there (an actor may have
+	// created the directory itself)
+	if m, _ := filepath.Glob(filepath.Join(runDir, "plots", "*.gp")); len(m) > 0 {
 		p.PlotsDir = true
+	}
+	if st, err := os.Stat(filepath.Join(runDir, "plots")); err == nil && st.IsDir() && p.NoPlot && !p.OwnPlots {
+		p.PlotsDir = true // --disable-plots and nobody else to create it: must not exist
 	}
 	b, err := ioutil.ReadFile(filepath.Join(runDir, "result.js"))
 	if err != nil {
@@ -739,6 +749,14 @@ func (p *play) inspect(runDir string) {
 		if _, err := os.Stat(filepath.Join(runDir, "plots", "lastplot.gp")); err != nil || !strings.Contains(string(rb), "load 'lastplot.gp'") {
 			p.PlotFilesExist = false
 			p.MissingPlotFiles = append(p.MissingPlotFiles, "Repeat section without lastplot.gp / its load line")
+		}
+	}
+	if !p.NoPlot {
+		for _, w := range []string{"plot.gp", "runme.gp"} {
+			if _, err := os.Stat(filepath.Join(runDir, "plots", w)); err != nil {
+				p.PlotFilesExist = false
+				p.MissingPlotFiles = append(p.MissingPlotFiles, "plots/"+w+" was not generated")
+			}
 		}
 	}
 	if p.PlotsDir && p.Gnuplot == "ok" {
@@ -1194,6 +1212,7 @@ func main() {
 		}
 		p.FoulKind = []string{"audit", "action", "early"}[rng.Intn(3)]
 		p.MaxT = []string{"0.5", "2.25", "3.25", "4.75", "6.0"}[rng.Intn(5)]
+		p.OwnPlots = rng.Intn(3) == 0
 		p.PastSecs = rng.Intn(4)
 	}
 	for _, p := range early {
@@ -1324,6 +1343,9 @@ func main() {
 		}
 		if !p.NoPlot {
 			dist["gnuplot_"+p.Gnuplot]++
+		}
+		if p.OwnPlots {
+			dist["actor_creates_the_plots_directory"]++
 		}
 		if p.Repeat && p.Fouled && p.FoulKind == "early" {
 			dist["repeat_section_never_reached"]++
